@@ -42,7 +42,7 @@ def run_case(ctx, case):
         # those libraries are generated without string types
         lib = libgen.generate(random.Random(case["libseed"]), "liba", size=case.get("size", 1.0), docs=False,
                               strings="-string" in CONFIGS[case["cfg"]], arrays="-python" not in CONFIGS[case["cfg"]],
-                              ext=True)
+                              ext=True, shadow=True)
         lib.write(d)
         model = lib.model
     cfg = CONFIGS[case["cfg"]]
